@@ -37,6 +37,20 @@ type OracleOut struct {
 	CorpusNow []string       `json:"corpus_witnesses_that_agree_now"`
 	RegrOK    int            `json:"regression_witnesses_agree"`
 	DiffCount map[string]int `json:"diff_count"`
+	Views     int            `json:"view_evaluations"`          // evaluations with a SLICE view among receiver / operands
+	ViewsOK   int            `json:"view_evaluations_nonpanic"` // ... in which not both members panicked
+}
+
+func hasView(c PCase) bool {
+	if c.Recv.View != nil {
+		return true
+	}
+	for _, a := range c.Args {
+		if a.View != nil {
+			return true
+		}
+	}
+	return false
 }
 
 func writeJSON(path string, v interface{}) {
@@ -113,6 +127,12 @@ func oracleRun(o Opts, perPlan int, exh bool) OracleOut {
 			out.Directed++
 			key := dc.Kind + "." + dc.G + "/" + dc.C
 			out.PerPair[key]++
+			if hasView(dc) {
+				out.Views++
+				if !both {
+					out.ViewsOK++
+				}
+			}
 			if both {
 				out.BothPanic++
 			} else {
@@ -134,6 +154,12 @@ func oracleRun(o Opts, perPlan int, exh bool) OracleOut {
 			cl, d, both := evalPair(c)
 			out.Evals++
 			out.PerPair[key]++
+			if hasView(c) {
+				out.Views++
+				if !both {
+					out.ViewsOK++
+				}
+			}
 			if both {
 				out.BothPanic++
 			} else {
@@ -199,6 +225,7 @@ func main() {
 	emitICases(o)
 	emitACases(o)
 	emitMACases(o)
+	emitMWCases(o)
 }
 
 func replay(o Opts) {
